@@ -235,7 +235,7 @@ fn stage(i: &Input, c: &mut Case) -> Result<(), String> {
 pub const STAGES: &[Stage] = &[Stage { name: "streaming", f: stage }];
 
 pub fn run(rc: &mut RunCtx) {
-    rc.run_pt(STAGES[0], rc.pick(80_000, 1_500_000), (96, 640));
+    rc.run_pt(STAGES[0], rc.pick(320_000, 1_500_000), (96, 640));
     for l in ["complete_prefix_checked", "known_open_checked", "unknown_then_writes_then_known", "flush_with_open_masters", "with_rejected_calls"] {
         rc.require_label("streaming", l, 20_000);
     }
